@@ -164,7 +164,16 @@ func PlaceFile(afs fs.FS, fmeta fs.Metadata, body io.Reader, skipChown bool) err
 	//  Unless we can avoid it!  If we're already operating as these IDs,
 	//   not only *can* we skip it to save time, we *must*: the syscalls
 	//    require privileges, even if they would turn out to be no-ops.
-	if !skipChown && (fmeta.Uid != myUid || fmeta.Gid != myGid) {
+	needChown := !skipChown && (fmeta.Uid != myUid || fmeta.Gid != myGid)
+	if !skipChown && !needChown {
+		// "Operating as these IDs" does not mean the new object got them: below a setgid directory the kernel hands
+		//  out the directory's group, and an existing directory we were told to reuse has whatever owner it had.
+		//  (Giving a file of ours to a group of ours needs no privilege.)
+		if st, err := afs.LStat(fmeta.Name); err == nil && (st.Uid != fmeta.Uid || st.Gid != fmeta.Gid) {
+			needChown = true
+		}
+	}
+	if needChown {
 		if err := afs.Lchown(fmeta.Name, fmeta.Uid, fmeta.Gid); err != nil {
 			return err
 		}
